@@ -134,7 +134,8 @@ class JointRecurrencePlot(RecurrencePlot):
         self.JR = None
         """The joint recurrence matrix."""
         self.N = 0
-        """The length of both embedded time series x and y."""
+        """The number of lines and rows of the joint recurrence matrix
+           (length of the embedded time series x and y minus abs(lag))."""
 
         #  Check for consistency: x and y need to have the same length
         if x.shape[0] == y.shape[0]:
@@ -273,7 +274,7 @@ class JointRecurrencePlot(RecurrencePlot):
             #     recurrence_y[:N+self.lag, :N+self.lag]
             self.JR = recurrence_y[:N+self.lag, :N+self.lag] * \
                 recurrence_x[-self.lag:N, -self.lag:N]
-        self.N = N
+        self.N = N - abs(self.lag)
 
     def set_fixed_threshold_std(self, threshold_std):
         """
@@ -336,4 +337,4 @@ class JointRecurrencePlot(RecurrencePlot):
             #     recurrence_y[:N+self.lag, :N+self.lag]
             self.JR = recurrence_y[:N+self.lag, :N+self.lag] * \
                 recurrence_x[-self.lag:N, -self.lag:N]
-        self.N = N
+        self.N = N - abs(self.lag)
